@@ -972,7 +972,7 @@ def run(rep):
         "exhaustive": True,
         "exhaustive_space": "all sequences of length <= %d over 66 statement skeletons (emit/yield/await/return at top level and at every "
                             "position of 0-2-statement if / else / block / while / for bodies): %d bodies" % (exh_len, nseq),
-        "input_distribution": hist, "shape_histogram": flaghist, "dropped_nonterminating_in_model": dropped,
+        "input_distribution": hist, "shape_histogram": flaghist, "dropped_by_model_bounds": dropped,
         "tasks": tasks_total, "steps_compared": steps_total, "cases_in_fragment": n_wf_cases,
         "spec_equal": n_spec_equal, "spec_differs_on_known_shape": n_spec_diff_known,
         "disagreements": len(corr_bad), "spec_failures_outside_known_shapes": len(spec_bad),
@@ -1073,7 +1073,7 @@ def run(rep):
         "which task receives the next step grant (queue discipline, nested run_until_complete) is property C15; here tasks are identified through the trace",
         "tasks use only their own parameters and loop variables: interference through dynamic scoping is outside the model (tested on 1-4 concurrent tasks)",
         "task bodies are over int locals with emit/assign/await/yield/return/block/if/while/for; break/continue/defer/sleep/method tasks are not modelled",
-        "programs on which the model itself does not terminate within %d steps are dropped from the stream (counted)" % MAXSTEPS,
+        "programs on which the model itself does not terminate within %d steps, or in which a local / awaited value leaves +-2^24 (the implementation's int is range-checked, the model computes in Z), are dropped from the stream (counted)" % MAXSTEPS,
     ]
 
 
